@@ -491,6 +491,11 @@ def _set_consumer(fn, m):
 
 
 def run(prog, ctx):
+    # R8: the text a typed getter interprets is the text of the key asked for - the first entry whose section and key EQUAL the
+    # ones given (= C11.A4); a prefix or case-blind comparison makes `RETRY` read the text of `RETRY_MAX`
+    from rules import common as _common
+    from rules import C11 as _C11
+    _common.import_obligations(ctx, prog, [_C11.a4, _C11.a4_no_entry_passed_over], "R8", "the getter reads the key asked for: ", what="lookup of the entry")
     n = 0
     for g, (width, signed, kind) in conv.GETTERS.items():
         f = prog.fn(g)
